@@ -6,40 +6,104 @@ Import ListNotations.
 Local Open Scope Z_scope.
 
 (* ---------------------------------------------------------------- the window transform *)
+Lemma default_not_rejected : rejected_range default_rows = false /\ rejected_range default_range = false.
+Proof. split; reflexivity. Qed.
+
+Lemma rejected_range_spec r : rejected_range r = true <-> range_is_empty r = true /\ r <> not_given.
+Proof.
+  unfold rejected_range. rewrite andb_true_iff, negb_true_iff. split; intros [E N]; (split; [exact E|]).
+  - intros ->. discriminate.
+  - destruct (bounds_eqb r not_given) eqn:B; [|reflexivity]. exfalso. apply N.
+    destruct r as [[a|] [b|]]; cbn in B; try discriminate.
+    apply andb_true_iff in B as [B1 B2]. apply Z.eqb_eq in B1, B2. subst. reflexivity.
+Qed.
+
+Lemma nonempty_not_rejected r : range_is_empty r = false -> rejected_range r = false.
+Proof. intro H. unfold rejected_range. rewrite H. reflexivity. Qed.
+
 Lemma rolling_is_rows n : 0 < n -> frame_of (args_rolling n) = frame_of (args_rows (Some (1 - n)) (Some 0)).
 Proof.
   intro H. unfold frame_of, args_rolling, args_rows. cbn [w_rows w_range w_expanding w_rolling default_expanding default_rolling].
-  assert (E1 : (0 <? n) = true) by (apply Z.ltb_lt; lia). rewrite E1.
-  cbn [range_is_empty Z.ltb Z.compare]. assert (E2 : (0 <? 1 - n) = false) by (apply Z.ltb_ge; lia). rewrite E2.
+  assert (E2 : (0 <? 1 - n) = false) by (apply Z.ltb_ge; lia).
+  assert (R : rejected_range (Some (1 - n), Some 0) = false) by (apply nonempty_not_rejected; cbn [range_is_empty]; exact E2).
+  rewrite R. destruct default_not_rejected as [D1 D2]. rewrite D1, D2.
+  unfold frame_chain. assert (E1 : (0 <? n) = true) by (apply Z.ltb_lt; lia). rewrite E1.
+  cbn [range_is_empty Z.ltb Z.compare]. rewrite E2.
   cbn [negb fst snd]. replace (- n + 1) with (1 - n) by lia. reflexivity.
 Qed.
 
 Lemma rolling_nonpositive_ignored n : n <= 0 -> frame_of (args_rolling n) = frame_of no_args.
 Proof.
   intro H. unfold frame_of, args_rolling, no_args. cbn [w_rows w_range w_expanding w_rolling default_expanding default_rolling].
+  destruct default_not_rejected as [D1 D2]. rewrite D1, D2. unfold frame_chain.
   assert (E1 : (0 <? n) = false) by (apply Z.ltb_ge; lia). rewrite E1. reflexivity.
 Qed.
 
 Lemma expanding_is_rows : frame_of args_expanding = frame_of (args_rows None (Some 0)).
 Proof. reflexivity. Qed.
 
-Lemma no_window_args_whole_partition : frame_of no_args = no_window.
+Lemma no_window_args_whole_partition : frame_of no_args = WFrame no_window.
 Proof. reflexivity. Qed.
 
-Lemma rows_nonempty a b : range_is_empty (a, b) = false -> frame_of (args_rows a b) = (KRows, a, b).
-Proof. intro H. unfold frame_of, args_rows. cbn [w_rows w_range w_expanding w_rolling]. rewrite H. reflexivity. Qed.
-
-Lemma range_nonempty a b : range_is_empty (a, b) = false -> frame_of (args_range a b) = (KRange, a, b).
-Proof. intro H. unfold frame_of, args_range. cbn [w_rows w_range w_expanding w_rolling]. rewrite H. reflexivity. Qed.
-
-(* a rows/range argument whose start is after its end is silently ignored: the whole partition *)
-Lemma empty_range_is_whole_partition a b : range_is_empty (a, b) = true ->
-  frame_of (args_rows a b) = no_window /\ frame_of (args_range a b) = no_window.
+Lemma rows_nonempty a b : range_is_empty (a, b) = false -> frame_of (args_rows a b) = WFrame (KRows, a, b).
 Proof.
-  intro H. split.
-  - unfold frame_of, args_rows. cbn [w_rows w_range w_expanding w_rolling]. rewrite H. reflexivity.
-  - unfold frame_of, args_range. cbn [w_rows w_range w_expanding w_rolling]. rewrite H. reflexivity.
+  intro H. unfold frame_of, args_rows. cbn [w_rows w_range w_expanding w_rolling].
+  rewrite (nonempty_not_rejected _ H). destruct default_not_rejected as [_ D2]. rewrite D2.
+  unfold frame_chain, default_expanding, default_rolling. rewrite H. reflexivity.
 Qed.
+
+Lemma range_nonempty a b : range_is_empty (a, b) = false -> frame_of (args_range a b) = WFrame (KRange, a, b).
+Proof.
+  intro H. unfold frame_of, args_range. cbn [w_rows w_range w_expanding w_rolling].
+  rewrite (nonempty_not_rejected _ H). destruct default_not_rejected as [D1 _]. rewrite D1.
+  unfold frame_chain, default_expanding, default_rolling. rewrite H. reflexivity.
+Qed.
+
+(* /repo 7b31f75: a rows/range argument whose start is after its end is a compile error -- unless it is spelled
+   like the default 0..-1 *)
+Lemma empty_range_rejected a b : range_is_empty (a, b) = true -> (a, b) <> not_given ->
+  frame_of (args_rows a b) = WEmptyRange ARows /\ frame_of (args_range a b) = WEmptyRange ARange.
+Proof.
+  intros H N. assert (R : rejected_range (a, b) = true) by (apply rejected_range_spec; split; assumption).
+  split.
+  - unfold frame_of, args_rows. cbn [w_rows w_range w_expanding w_rolling]. rewrite R. reflexivity.
+  - unfold frame_of, args_range. cbn [w_rows w_range w_expanding w_rolling]. rewrite R.
+    destruct default_not_rejected as [D1 _]. rewrite D1. reflexivity.
+Qed.
+
+(* the error does not depend on the other arguments: it is raised before expanding / rolling are consulted *)
+Lemma frame_of_rejects_iff (a : wargs) :
+  (exists x, frame_of a = WEmptyRange x) <->
+  rejected_range (match w_rows a with Some r => r | None => default_rows end) = true \/
+  rejected_range (match w_range a with Some r => r | None => default_range end) = true.
+Proof.
+  unfold frame_of.
+  destruct (rejected_range (match w_rows a with Some r => r | None => default_rows end)) eqn:R1.
+  - split; [intros _; left; reflexivity | intros _; exists ARows; reflexivity].
+  - destruct (rejected_range (match w_range a with Some r => r | None => default_range end)) eqn:R2.
+    + split; [intros _; right; reflexivity | intros _; exists ARange; reflexivity].
+    + split; [intros [x Hx]; discriminate | intros [H|H]; discriminate].
+Qed.
+
+(* whatever is accepted: written as given -- except for the spelling 0..-1 (the std.prql default), which
+   cannot be told from "argument not given" *)
+Lemma rows_as_written_partial a b f : (a, b) <> not_given -> frame_of (args_rows a b) = WFrame f -> f = (KRows, a, b).
+Proof.
+  intros N H. destruct (range_is_empty (a, b)) eqn:E.
+  - destruct (empty_range_rejected a b E N) as [R _]. rewrite R in H. discriminate.
+  - rewrite (rows_nonempty a b E) in H. injection H as <-. reflexivity.
+Qed.
+
+Lemma range_as_written_partial a b f : (a, b) <> not_given -> frame_of (args_range a b) = WFrame f -> f = (KRange, a, b).
+Proof.
+  intros N H. destruct (range_is_empty (a, b)) eqn:E.
+  - destruct (empty_range_rejected a b E N) as [_ R]. rewrite R in H. discriminate.
+  - rewrite (range_nonempty a b E) in H. injection H as <-. reflexivity.
+Qed.
+
+Lemma explicit_default_is_whole_partition :
+  frame_of (args_rows (Some 0) (Some (-1))) = WFrame no_window /\ frame_of (args_range (Some 0) (Some (-1))) = WFrame no_window.
+Proof. split; reflexivity. Qed.
 
 (* ---------------------------------------------------------------- bound signs *)
 Definition bound_offset (b : sbound) : option Z :=
@@ -52,8 +116,29 @@ Proof.
   - left. apply Z.eqb_eq in E0. auto.
   - apply Z.eqb_neq in E0. destruct (1 <=? z) eqn:E1.
     + right; left. apply Z.leb_le in E1. auto.
-    + right; right. apply Z.leb_gt in E1. split; [lia | reflexivity].
+    + right; right. apply Z.leb_gt in E1. split; [lia | do 2 f_equal; lia].
 Qed.
+
+(* /repo 222f71a: on the i64 domain the arithmetic of the two mirrors never leaves the machine types --
+   `-rolling + 1` is only evaluated for rolling > 0, and the PRECEDING distance is `unsigned_abs` (u64) *)
+Definition i64_min : Z := - 2 ^ 63.
+Definition i64_max : Z := 2 ^ 63 - 1.
+Definition u64_max : Z := 2 ^ 64 - 1.
+Definition in_i64 (z : Z) : Prop := i64_min <= z <= i64_max.
+Definition bound_distance (b : sbound) : Z := match b with SPreceding (Some k) | SFollowing (Some k) => k | _ => 0 end.
+
+Lemma frame_arith_in_range :
+  (forall rolling, in_i64 rolling -> 0 < rolling -> in_i64 (- rolling) /\ in_i64 (- rolling + 1)) /\
+  (forall z, in_i64 z -> 0 <= bound_distance (parse_bound z) <= u64_max /\ (i64_min < z -> in_i64 (bound_distance (parse_bound z)))).
+Proof.
+  unfold in_i64, i64_min, i64_max, u64_max.
+  assert (P63 : 2 ^ 63 = 9223372036854775808) by reflexivity.
+  assert (P64 : 2 ^ 64 = 18446744073709551616) by reflexivity.
+  rewrite P63, P64. split.
+  - intros r H H0. lia.
+  - intros z H. destruct (parse_bound_cases z) as [[Hz E] | [[Hz E] | [Hz E]]]; rewrite E; cbn [bound_distance]; lia.
+Qed.
+
 
 (* negative = PRECEDING, 0 = CURRENT ROW, positive = FOLLOWING; the offset is kept and is non-negative *)
 Lemma bound_sign z :
@@ -270,12 +355,12 @@ Lemma frame_emit_refuted_witness :
   prql_segment no_window w_keys w_part 0 = [0; 1; 2]%nat.
 Proof. split; vm_compute; reflexivity. Qed.
 
-(* a range written with its start after its end: the book's meaning is the empty segment, the transform
-   takes it for "argument not given" *)
-Lemma empty_range_witness :
-  range_is_empty (Some 1, Some 0) = true /\
-  prql_segment (frame_of (args_rows (Some 1) (Some 0))) w_keys w_part 0 = [0; 1; 2]%nat /\
-  seg (FRows (Some 1) (Some 0)) w_keys w_part 0 = [].
+(* the one empty range that is still accepted: `rows:0..-1` written out is the spelling of the std.prql default, the
+   transform takes it for "argument not given" (whole partition); the book's inclusive bounds give the empty segment *)
+Lemma explicit_default_witness :
+  frame_of (args_rows (Some 0) (Some (-1))) = WFrame no_window /\
+  prql_segment no_window w_keys w_part 0 = [0; 1; 2]%nat /\
+  seg (FRows (Some 0) (Some (-1))) w_keys w_part 0 = [].
 Proof. repeat split; vm_compute; reflexivity. Qed.
 
 (* ties: the implicit RANGE frame ends at the LAST PEER of the current row; `rows:..0` ends at the row itself.
@@ -288,3 +373,89 @@ Lemma ties_default_vs_rows :
   prql_segment (KRange, None, Some 0) w_keys t_part 0 = [0; 1]%nat /\
   emit_frame true true (KRange, None, Some 0) = None.
 Proof. repeat split; vm_compute; reflexivity. Qed.
+
+(* ---------------------------------------------------------------- partition / frame scoping (flatten.rs) *)
+Section SitemInd.
+  Variable P : sitem -> Prop.
+  Hypothesis Hcol : forall t, P (SCol t).
+  Hypothesis Hgroup : forall b body, Forall P body -> P (SGroup b body).
+  Hypothesis Hwin : forall f body, Forall P body -> P (SWindow f body).
+  Hypothesis Hsub : forall body, Forall P body -> P (SSub body).
+  Fixpoint sitem_ind' (i : sitem) : P i :=
+    let go := fix go (l : list sitem) : Forall P l :=
+      match l with [] => Forall_nil P | x :: t => Forall_cons x (sitem_ind' x) (go t) end in
+    match i with
+    | SCol t => Hcol t
+    | SGroup b body => Hgroup b body (go body)
+    | SWindow f body => Hwin f body (go body)
+    | SSub body => Hsub body (go body)
+    end.
+End SitemInd.
+
+(* the local list walk of scope_run_item is scope_run *)
+Lemma scope_run_local pol : forall l st,
+  (fix run_list (l : list sitem) (st : fstate) {struct l} : list scope_out * fstate :=
+     match l with
+     | [] => ([], st)
+     | x :: t => let (o1, st1) := scope_run_item pol x st in let (o2, st2) := run_list t st1 in (o1 ++ o2, st2)
+     end) l st = scope_run pol l st.
+Proof.
+  induction l as [|x t IH]; intro st; [reflexivity|].
+  cbn [scope_run]. destruct (scope_run_item pol x st) as [o1 st1]. rewrite IH. reflexivity.
+Qed.
+
+Lemma scope_run_item_unfold pol i st :
+  scope_run_item pol i st =
+  match i with
+  | SCol t => ([(t, st_part st, st_win st)], st)
+  | SGroup by_ body =>
+      let (o, st') := scope_run pol body (mk_fstate (Some by_) (st_win st)) in
+      (o, mk_fstate (match p_group_exit pol with ExitRestore => st_part st | ExitReset => None end) (st_win st'))
+  | SWindow f body =>
+      let (o, st') := scope_run pol body (mk_fstate (st_part st) f) in
+      (o, mk_fstate (st_part st') (match p_window_exit pol with ExitRestore => st_win st | ExitReset => no_window end))
+  | SSub body =>
+      let (o, st') := scope_run pol body (mk_fstate (if p_sub_isolates_partition pol then None else st_part st)
+                                                    (if p_sub_isolates_window pol then no_window else st_win st)) in
+      (o, mk_fstate (if p_sub_isolates_partition pol then st_part st else st_part st')
+                    (if p_sub_isolates_window pol then st_win st else st_win st'))
+  end.
+Proof. destruct i; cbn [scope_run_item]; rewrite ?scope_run_local; reflexivity. Qed.
+
+Definition scope_item_ok (i : sitem) : Prop :=
+  forall st, scope_run_item flatten_policy i st = (scope_spec_item (st_part st) (st_win st) i, st).
+
+Lemma scope_run_list_ok l : Forall scope_item_ok l ->
+  forall st, scope_run flatten_policy l st = (scope_spec (st_part st) (st_win st) l, st).
+Proof.
+  induction 1 as [|x t Hx _ IH]; intro st; [reflexivity|].
+  cbn [scope_run]. rewrite (Hx st), (IH st). reflexivity.
+Qed.
+
+Lemma fstate_eta st : mk_fstate (st_part st) (st_win st) = st.
+Proof. destruct st; reflexivity. Qed.
+
+Lemma scope_item_sound : forall i, scope_item_ok i.
+Proof.
+  apply sitem_ind'; unfold scope_item_ok.
+  - intros t st. reflexivity.
+  - intros b body H st. rewrite scope_run_item_unfold, (scope_run_list_ok body H). cbn [st_part st_win flatten_policy p_group_exit scope_spec_item].
+    rewrite fstate_eta. reflexivity.
+  - intros f body H st. rewrite scope_run_item_unfold, (scope_run_list_ok body H). cbn [st_part st_win flatten_policy p_window_exit scope_spec_item].
+    rewrite fstate_eta. reflexivity.
+  - intros body H st. rewrite scope_run_item_unfold, (scope_run_list_ok body H). cbn [st_part st_win flatten_policy p_sub_isolates_partition p_sub_isolates_window scope_spec_item].
+    rewrite fstate_eta. reflexivity.
+Qed.
+
+(* the Flattener's save / overwrite / write back of `partition` and `window` IS lexical scoping: every column
+   definition is handed the key of the innermost enclosing group and the frame of the innermost enclosing window
+   (none inside a relational argument), and the walk leaves the fields as it found them *)
+Lemma scope_sound l st : scope_run flatten_policy l st = (scope_spec (st_part st) (st_win st) l, st).
+Proof. apply scope_run_list_ok. apply Forall_forall. intros i _. apply scope_item_sound. Qed.
+
+(* non-vacuity: with the bookkeeping of the tree before 592b6f8 (reset instead of restore) the statement is false *)
+Definition scope_example : list sitem :=
+  [SGroup 0%N [SWindow (KRows, Some (-1), Some 0) [SCol 1%N; SGroup 1%N [SCol 2%N]; SCol 3%N]; SCol 4%N]; SCol 5%N].
+Lemma scope_old_policy_differs :
+  fst (scope_run old_flatten_policy scope_example fstate0) <> scope_spec None no_window scope_example.
+Proof. vm_compute. discriminate. Qed.
